@@ -2,6 +2,7 @@
 MODULES = {
     "C01": "harness.c01_decode",
     "C06": "harness.c06_response",
+    "C02": "harness.c02_construct",
     "C03": "harness.c03_tables",
     "C04": "harness.c04_address",
     "C05": "harness.c05_frame",
